@@ -205,8 +205,10 @@ let check_table acc st ~props ~klass ~(table_json : unit -> json) ~(path : strin
           extracted structural check, and the entries the theorems speak about are the
           entries that were written / encoded *)
        bump acc "table_check_runs";
+       let block_keys = ref [] in      (* keys of every data block, from the checked table *)
        (match table_check dec rd with
         | Some ((_, _), bl) ->
+          block_keys := List.map (fun (b, _) -> List.map (fun e -> string_of_nl e.pe_key) b.ab_entries) bl;
           let got = List.concat_map (fun (b, _) -> List.map (fun e -> (string_of_nl e.pe_key, string_of_nl e.pe_val)) b.ab_entries) bl in
           if got <> es then
             fail acc ~kind:"model_mismatch" ~what:"[C01,C02,C03,C11] table_check accepts the table but its entry list is not what was written" (table_json ())
@@ -287,6 +289,43 @@ let check_table acc st ~props ~klass ~(table_json : unit -> json) ~(path : strin
          List.iter (fun o -> ignore (impl_step o Next)) others
        done;
        List.iter impl_destroy others;
+       (* directed at block ends (the states in which a block iterator has run off its block, or sits on the block's
+          last entry): seek into the gap behind a block's last key, then to exactly that last key; run to the end
+          of a block with next, cross into the following block, seek back to the last key; seek past the end of
+          the table, then to the last key *)
+       let nblk = List.length !block_keys in
+       let pos = ref 0 in
+       let seps = Array.of_list (index_keys rd) in
+       (* the index iterator run off its end, then sought to its last key *)
+       if Array.length seps > 0 then begin
+         let ls = seps.(Array.length seps - 1) in
+         hist Iter [ Seek (ls ^ "\000"); Next; Seek ls; Next; Next ];
+         hist Iter [ Seek "\xff\xff\xff\xff"; Seek ls; Next ]
+       end;
+       List.iteri (fun bi keys ->
+         let n = List.length keys in
+         if bi < 8 && n > 0 then begin
+           let last = List.nth keys (n - 1) in
+           bump acc "block_end_histories";
+           hist Iter [ Seek (last ^ "\000"); Seek last; Next; Next ];
+           (* a separator strictly above the block's last key: seeking to it runs the block iterator off the end of
+              this block; the following seek to the last key re-uses that iterator *)
+           if bi < Array.length seps && compare seps.(bi) last > 0 then begin
+             bump acc "separator_gap_histories";
+             hist Iter [ Seek seps.(bi); Seek last; Next; Next ];
+             hist Iter [ Next; Seek seps.(bi); Seek last; Next; Next ];
+             hist (Range ("", "\xff\xff\xff")) [ Seek seps.(bi); Seek last; Next ]
+           end;
+           hist Iter (nexts (!pos + n) @ [ Seek last; Next; Next ]);
+           hist Iter (nexts (!pos + n + 1) @ [ Seek last; Next; Next ]);
+           hist (Range ("", "\xff\xff\xff")) [ Seek (last ^ "\000"); Seek last; Next; Next ];
+           if n >= 2 then hist Iter [ Seek (List.nth keys (n - 2)); Next; Next; Seek last; Next; Next ];
+           if bi = nblk - 1 then begin
+             hist Iter [ Seek "\xff\xff\xff\xff"; Next; Seek last; Next; Next ];
+             hist (Prefix "") [ Seek "\xff\xff\xff\xff"; Seek last; Next; Next ]
+           end
+         end;
+         pos := !pos + n) !block_keys;
        (* the defect repaired by the fix: iterate across a block boundary, seek back *)
        if Array.length esa >= 6 then begin
          hist Iter (nexts (Array.length esa / 2 + 1) @ [ Seek (fst esa.(1)); Next; Next; Seek (fst esa.(0)); Next ]);
